@@ -23,12 +23,12 @@ ASSUMPTIONS = [
 PATTERNS = [
     "/a", "/a.b", "/a+b", "/b",
     "/{x}", "/{x:int}", "/{x:decimal}", "/{x:uuid}", "/{x:date}", "/{x:any}",
-    "/a/{x:int}", "/{x}/b", "/{x:int}/{y}", "/a/{x:any}", "/v{x:int}.{y:int}", "/{x}.txt", "/{x:decimal}/b", "/{x:date}/{y:uuid}",
+    "/a/{x:int}", "/é/{x}", "/{x}/b", "/{x:int}/{y}", "/a/{x:any}", "/v{x:int}.{y:int}", "/{x}.txt", "/{x:decimal}/b", "/{x:date}/{y:uuid}",
 ]
 UU = "90478484-0988-45fc-91fe-757d90136892"
 SEGS = [
     "a", "aXb", "a.b", "a+b", "b", "1", "007", "1.5", "1x5", "1.", "100", "0", "10.0", "1.50", "", UU, UU.upper(),
-    "2021-03-07", "2021-13-45", "2020-02-30", "x\ny", "١", "v1.2", "a.txt", ".txt",
+    "2021-03-07", "2021-13-45", "2020-02-30", "x\ny", "١", "é", "v1.2", "a.txt", ".txt",
 ]
 BOUNDS = {"quick": {"k": 2, "d": 2}, "thorough": {"k": 3, "d": 3}}
 BIG = "9" * 5000
@@ -81,9 +81,7 @@ def build_router(iface, table, log):
 def call(iface, router, path):
     req = SV.AReq(path=path)
     if iface == "wsgi":
-        env = SV.to_environ(req)
-        env["PATH_INFO"] = path  # the router sees the gateway's native string as is
-        res = SV.run_wsgi(router, env)
+        res = SV.run_wsgi(router, SV.to_environ(req))
     else:
         res = SV.run_asgi(router, SV.to_scope(req), SV.to_messages(req))
     return res
